@@ -448,9 +448,14 @@ def extractFromAst (fns : List Text) (calls : List ECall) : List Extracted :=
 /-- `_` is `_gettext_alias`, which resolves `gettext` in the context (ext.py:162-174) -/
 def effective (f : Text) : Text := if f == ['_'] then Func.gettext.name else f
 
-/-- what the installed callables record when every call node of the template is evaluated: the constant string
-    arguments (a `dyn` argument's run-time value is not a template constant and is not recorded as a message) -/
+/-- the leading constant string arguments of a call: the message arguments of the gettext family come first -/
+def leadingStrs : List Arg → List Text
+  | .str t :: r => t :: leadingStrs r
+  | _ => []
+
+/-- what the installed callables record when a call node is evaluated: the function and the leading constant strings
+    (the run-time value of a `dyn` argument is not a template constant, hence not a message the template contains) -/
 def ECall.recorded (c : ECall) : Recorded :=
-  { func := effective c.func, strings := c.args.filterMap (fun | .str t => some t | .dyn => none) }
+  { func := effective c.func, strings := leadingStrs c.args }
 
 end JinjaV.I18n
